@@ -12,9 +12,10 @@ def enc_int(n):
 class _Budget:
     left = 0
 
+PLUMBING = {"_io", "_flagsenum", "_", "_root", "_params", "_index", "_parsing", "_building", "_sizing", "_subcons"}
 def enc(v, depth=0):
-    """Python value -> tagged JSON. Keys starting with '_' are dropped from dict-likes
-    (Container.__eq__ ignores them; they hold _io, _flagsenum and context plumbing).
+    """Python value -> tagged JSON. The plumbing keys of contexts and parse results (_io, _flagsenum, _, _root, _params ...) are
+    dropped from dict-likes; other names starting with '_' are members like any other (Container.__eq__ ignores them, and so does PyEq).
     A value with more than 4000 nodes or a byte/str payload above 4096 is reported as opaque ("huge")."""
     from construct import EnumIntegerString
     if depth == 0:
@@ -49,7 +50,7 @@ def enc(v, depth=0):
         for k, x in items:
             if not isinstance(k, str):
                 return {"t": "opaque", "r": "dict-with-nonstring-key"}
-            if k.startswith("_"):
+            if k in PLUMBING:
                 continue
             ks.append(k)
             vs.append(enc(x, depth + 1))
